@@ -27,15 +27,19 @@ fn main() {
     if cmd == "eval" {
         // exploration helper: evaluate a file with the harness globals, print transcript/outcome
         let src = std::fs::read_to_string(&args[2]).unwrap();
-        let out = sl::run_src("x.star", &src, &sl::RunCfg::default(), &[]);
-        for t in &out.tx {
-            println!("tx: {t}");
-        }
-        match &out.result {
-            Ok(v) => println!("ok: {v}"),
-            Err(e) => println!("err[{}]: {}\n{}", e.kind, e.msg, e.full),
-        }
-        println!("ticks: {}", out.ticks);
+        // same stack size as the workers
+        let h = std::thread::Builder::new().stack_size(engine::WORKER_STACK).spawn(move || {
+            let out = sl::run_src("x.star", &src, &sl::RunCfg::default(), &[]);
+            for t in &out.tx {
+                println!("tx: {}", engine::truncate(t, 300));
+            }
+            match &out.result {
+                Ok(v) => println!("ok: {}", engine::truncate(v, 300)),
+                Err(e) => println!("err[{}]: {}\n{}", e.kind, e.msg, engine::truncate(&e.full, 600)),
+            }
+            println!("ticks: {}", out.ticks);
+        }).unwrap();
+        let _ = h.join();
         return;
     }
     if cmd == "tc" {
